@@ -154,6 +154,34 @@ func genListSrcWild(r *rng.R) Input {
 		}
 	}
 
+	// a member of the target that has the NAME of a first-level source entry but another type:
+	// the source entry must replace it
+	if have[target] && len(ov.first) > 0 && r.Bool() {
+		n := ov.first[r.Intn(len(ov.first))]
+		p := target + "/" + n
+		inTree, srcKind := false, 2
+		for _, e := range tree {
+			if string(e.Path) == p {
+				inTree = true
+			}
+			if string(e.Path) == ov.dir+"/"+n {
+				srcKind = e.Kind
+			}
+		}
+		if !inTree {
+			e := TEntry{Path: B(p), Kind: 2}
+			if srcKind == 2 {
+				e.Kind = 1 + 2*r.Intn(2)
+			}
+			if e.Kind == 3 {
+				e.Link = B("aa")
+			}
+			tree = append(tree, e)
+			init = append(init, e.Path)
+			known = append(known, p)
+		}
+	}
+
 	ty := "dir"
 	switch r.Intn(10) {
 	case 0, 1, 2:
